@@ -18,7 +18,7 @@
    [rows 0 f] : pre-order list of (parent id, node id, payload) of a forest;
    [ins_rows blk l l'] : l' is l with the block blk inserted, all else in place. *)
 From Coq Require Import List ZArith Bool Arith Lia Permutation.
-From NT Require Import Sx Rose Surgery SurgeryFacts Machine WF MachineFacts Effects FrameTrees CopyFacts CopyMulti CopyWF CopyLocal.
+From NT Require Import Sx Rose Surgery SurgeryFacts Machine WF MachineFacts Effects FrameTrees CopyFacts CopyMulti CopyWF CopyLocal CopySame.
 Import ListNotations.
 
 (* ---- the recursive copy (Node._add_from) ---- *)
@@ -209,6 +209,39 @@ Theorem C07_add_node_same_tree : forall w ti p src e k b deep r w' t s,
     (deep = Some true -> ~ In p (ids_t s)).
 Proof. exact add_node_same_tree. Qed.
 Print Assumptions C07_add_node_same_tree.
+
+(* several sources inside ONE tree: every single copy changes the tree the next source is read from; still
+   the copies are copies of the nodes as they were before the call ([copies ... f0 ...] refers to the forest
+   f0 before the call), they get consecutive fresh identities, and the tree keeps distinct identities *)
+Theorem C07_add_nodes_same_tree : forall ti p b deep f0 srcs w acc r w' t pq ch,
+  add_nodes w ti p ti srcs b deep acc = (Ok r, w') ->
+  get_tree w ti = Some t -> NoDup (ids (forest_of t)) -> (forall n, In n (ids (forest_of t)) -> n < next w) ->
+  parent_path p (forest_of t) = Some pq -> get_ch pq (forest_of t) = Some ch ->
+  (forall src, In src srcs -> src_ok f0 (forest_of t) p src) ->
+  (deep_of deep = true -> forall src s0, In src srcs -> get_node src f0 = Some s0 -> ~ In p (ids_t s0)) ->
+  exists xs t',
+    r = acc ++ map rid xs /\ get_tree w' ti = Some t' /\
+    copies (typed t) (deep_of deep) (default_kind t None) f0 (next w) srcs xs (next w') /\
+    get_ch pq (forest_of t') = Some (place_all (norm_before b) xs ch) /\
+    NoDup (ids (forest_of t')) /\ (forall n, In n (ids (forest_of t')) -> n < next w').
+Proof. exact add_nodes_same. Qed.
+Print Assumptions C07_add_nodes_same_tree.
+
+(* copy_to(add_self=False) to another place of the same tree *)
+Theorem C07_copy_to_children_same_tree : forall w ti src target b deep r w' t ch sch,
+  op_copy_to w ti src ti target false b deep = (Ok r, w') ->
+  get_tree w ti = Some t -> NoDup (ids (forest_of t)) -> (forall n, In n (ids (forest_of t)) -> n < next w) ->
+  children_of target (forest_of t) = Some ch ->
+  children_of src (forest_of t) = Some sch ->
+  exists t' pq xs,
+    get_tree w' ti = Some t' /\
+    parent_path target (forest_of t) = Some pq /\
+    get_ch pq (forest_of t') = Some (ch ++ xs) /\
+    Forall2 (copy_rel (typed t) deep (default_kind t None) (next w) (next w')) sch xs /\ sch <> [] /\
+    NoDup (ids (forest_of t')) /\
+    subseq (rows 0 (forest_of t)) (rows 0 (forest_of t')).
+Proof. exact copy_to_children_same. Qed.
+Print Assumptions C07_copy_to_children_same_tree.
 
 (* ---- Tree.copy / Node.copy keep the world well-formed (the C01-C03 invariant) ---- *)
 Theorem C07_tree_copy_WFw : forall w sti r w',
@@ -421,3 +454,15 @@ Proof.
   split; [vm_compute; discriminate|]. split; [vm_compute; reflexivity|]. split; [vm_compute; reflexivity|].
   repeat constructor.
 Qed.
+
+(* copy_to(add_self=False, deep) of the children of node 1 (= branch 2 with child 4) below node 3 of the same tree *)
+Definition w7k : world := snd (step w7 (OCopyTo 0 1 0 3 false BNone true)).
+Example C07_copy_to_same_tree_nonvacuous :
+    fst (step w7 (OCopyTo 0 1 0 3 false BNone true)) = Ok [5] /\
+    ids (forest_of (nth 0 (trees w7k) dflt)) = [1; 2; 4; 3; 5; 6] /\
+    get_node 2 (forest_of (nth 0 (trees w7k) dflt)) = get_node 2 src7 /\
+    option_map (strip_ids true) (get_node 5 (forest_of (nth 0 (trees w7k) dflt))) <> option_map (strip_ids true) (get_node 2 src7) /\
+    option_map (fun x => map (strip_ids true) (rch x)) (get_node 5 (forest_of (nth 0 (trees w7k) dflt))) =
+      option_map (fun x => map (strip_ids true) (rch x)) (get_node 2 src7) /\
+    wf_world_b w7k = true.
+Proof. conjs; try (vm_compute; reflexivity). vm_compute. discriminate. Qed.
